@@ -22,7 +22,8 @@ RULE = ("one run = a history of 1..4 manager process lifetimes (quick; 1..6 thor
         "{Ledger, SGX} from one initial state {no PIN file + default PIN, PIN file present, PIN file "
         "invalid}; per lifetime: forced change or not, device behaviour on the new PIN {accept, refuse, "
         "error, (SGX) answers 0}, and at most one fault {process crash at seam k, file-system fault at "
-        "file operation j (open EPERM/EIO/ENOSPC, short write, torn close, close EIO, read EIO), link "
+        "file operation j whatever file it is on (open EPERM/EIO/ENOSPC, short write, torn close, close EIO, "
+        "read EIO), link "
         "fault at the n-th PIN exchange (request lost / response lost / time-out)}, optional device power "
         "cycle before the next lifetime; enumerated: every crash seam, every file operation x fault, "
         "every PIN exchange x link fault of the single-lifetime change scenarios, each followed by a "
